@@ -430,5 +430,123 @@ theorem evaluate_bad_pawns.evaluate_eq {sv : StateVariation} {v : Variation} (hr
     simp only [h0, h7, if_true, if_false]
     rw [this, hd]; simp only [UInt64.zero_or, UInt64.or_zero]; omega
 
+/-! ## `evaluate_force_king_to_edge::evaluate` -/
+
+theorem u8_checked_add_some {a b r : UInt8} (h : UInt8.checked_add a b = some r) : r.toNat = a.toNat + b.toNat := by
+  unfold UInt8.checked_add at h
+  split at h
+  · rename_i hr; cases h; rw [UInt8.toNat_add]; exact Nat.mod_eq_of_lt hr
+  · cases h
+
+theorem u8_min_toNat (a b : UInt8) : (u8_min a b).toNat = min a.toNat b.toNat := by
+  unfold u8_min
+  by_cases h : a ≤ b
+  · rw [if_pos h]; rw [UInt8.le_iff_toNat_le] at h; omega
+  · rw [if_neg h]; rw [UInt8.le_iff_toNat_le] at h; omega
+
+theorem manhattan_lt (a b : Nat) (ha : a < 64) (hb : b < 64) : manhattan a b < 16 := by
+  unfold manhattan absDist rankOf fileOf
+  split <;> split <;> omega
+
+theorem firstOne_lt64 (b : UInt64) (n : Nat) (h : firstOne b = some n) : n < 64 := firstOne_lt b n h
+
+theorem ke_arith (x1 x2 x3 x4 md : Nat) (s13 s14 s15 s16 : Int) (q13 : s13 = ↑(min x1 x2) + ↑(min x3 x4))
+    (q14 : s14 = 6 - s13) (q15 : s15 = 10 * s14) (q16 : s16 = s15 - md) :
+    s16 = 10 * (6 - (min (x1 : Int) x2 + min (x3 : Int) x4)) - md := by omega
+
+/-- `evaluate_force_king_to_edge::evaluate` adds the model's `evalKingEdge` -/
+theorem evaluate_force_king_to_edge.evaluate_eq {sv : StateVariation} {v : Variation} (hr : SVRep sv v) (c : Color)
+    (e0 r : Int32) (b : Bool) (h : evaluate_force_king_to_edge.evaluate sv c e0 b = some r) :
+    r.toInt = e0.toInt + evalKingEdge v c := by
+  unfold evaluate_force_king_to_edge.evaluate at h
+  unfold evalKingEdge
+  rw [hr.egw, f32_literals.2.2.1] at h
+  by_cases h1 : v.egw < kingEdgeThreshold
+  · rw [if_pos h1]
+    rw [decide_eq_true h1, if_pos rfl] at h
+    cases h; omega
+  · rw [if_neg h1]
+    rw [decide_eq_false h1, if_neg (by simp)] at h
+    simp only [Option.bind_eq_bind, Color.not_eq] at h
+    obtain ⟨t1, ht1, h⟩ := Option.bind_eq_some_iff.1 h
+    obtain ⟨t2, ht2, h⟩ := Option.bind_eq_some_iff.1 h
+    obtain ⟨t3, ht3, h⟩ := Option.bind_eq_some_iff.1 h
+    have e1 := hr.cc c t1 ht1
+    have e2 := hr.cc c.opp t2 ht2
+    have e3 := u8_checked_add_some ht3
+    have one : (1 : UInt8).toNat = 1 := rfl
+    have hm : kingEdgeCountMargin = 1 := rfl
+    by_cases h2 : v.count c < v.count c.opp + kingEdgeCountMargin
+    · rw [if_pos h2]
+      have : t1 < t3 := by rw [UInt8.lt_iff_toNat_lt]; omega
+      rw [decide_eq_true this, if_pos rfl] at h
+      cases h; omega
+    · rw [if_neg h2]
+      have : ¬ t1 < t3 := by rw [UInt8.lt_iff_toNat_lt]; omega
+      rw [decide_eq_false this, if_neg (by simp)] at h
+      rw [hr.state, Board.piece_occupancy_stateOf, Board.piece_occupancy_stateOf] at h
+      simp only [Option.bind_some, BitBoard.pop_eq] at h
+      cases ho : firstOne (v.s.pieces.get c .king) with
+      | none =>
+        rw [ho] at h
+        simp only at h
+        cases h; simp
+      | some ours =>
+        rw [ho] at h
+        simp only at h
+        cases ht : firstOne (v.s.pieces.get c.opp .king) with
+        | none =>
+          rw [ht] at h
+          simp only at h
+          cases h; simp
+        | some theirs =>
+          rw [ht] at h
+          simp only at h
+          have ho64 := firstOne_lt64 _ _ ho
+          have ht64 := firstOne_lt64 _ _ ht
+          have hou : ours.toUInt8.toNat = ours := toUInt8_toNat_lt _ (by omega)
+          have htu : theirs.toUInt8.toNat = theirs := toUInt8_toNat_lt _ (by omega)
+          have hrk : (Square.rank theirs.toUInt8).toNat = rankOf theirs := by rw [Square.rank_toNat, htu]
+          have hfl : (Square.file theirs.toUInt8).toNat = fileOf theirs := by rw [Square.file_toNat, htu]
+          have hrk8 : rankOf theirs < 8 := by unfold rankOf; omega
+          have hfl8 : fileOf theirs < 8 := by unfold fileOf; omega
+          rw [Square.manhattan_distance_to_eq _ _ (by omega) (by omega),
+            Rank.abs_distance_to_eq _ _ (by omega) (by decide), Rank.abs_distance_to_eq _ _ (by omega) (by decide),
+            File.abs_distance_to_eq _ _ (by omega) (by decide), File.abs_distance_to_eq _ _ (by omega) (by decide)] at h
+          simp only [Option.bind_some, hou, htu, hrk, hfl] at h
+          have r0 : Rank.ONE.toNat = 0 := rfl
+          have r7 : Rank.EIGHT.toNat = 7 := rfl
+          have f0 : File.A.toNat = 0 := rfl
+          have f7 : File.H.toNat = 7 := rfl
+          rw [r0, r7, f0, f7] at h
+          have hmd := manhattan_lt ours theirs ho64 ht64
+          have a1 := absDist_lt8 (rankOf theirs) 0 hrk8 (by omega)
+          have a2 := absDist_lt8 (rankOf theirs) 7 hrk8 (by omega)
+          have a3 := absDist_lt8 (fileOf theirs) 0 hfl8 (by omega)
+          have a4 := absDist_lt8 (fileOf theirs) 7 hfl8 (by omega)
+          obtain ⟨s13, hs13, h⟩ := Option.bind_eq_some_iff.1 h
+          obtain ⟨s14, hs14, h⟩ := Option.bind_eq_some_iff.1 h
+          obtain ⟨s15, hs15, h⟩ := Option.bind_eq_some_iff.1 h
+          obtain ⟨s16, hs16, h⟩ := Option.bind_eq_some_iff.1 h
+          obtain ⟨s17, hs17, h⟩ := Option.bind_eq_some_iff.1 h
+          cases h
+          have k6 : (6 : Int32).toInt = 6 := by decide
+          have k10 : (10 : Int32).toInt = 10 := by decide
+          have q13 := i32_checked_add_some hs13
+          have q14 := i32_checked_sub_some hs14
+          have q15 := i32_checked_mul_some hs15
+          have q16 := i32_checked_sub_some hs16
+          rw [u8_as_i32, u8_as_i32, u8_min_toNat, u8_min_toNat, toUInt8_toNat_lt _ (by omega), toUInt8_toNat_lt _ (by omega),
+            toUInt8_toNat_lt _ (by omega), toUInt8_toNat_lt _ (by omega)] at q13
+          rw [u8_as_i32, toUInt8_toNat_lt _ (by omega)] at q16
+          rw [Evaluation.add_assign_some hs17, Evaluation.mul_f32_eq]
+          have hk : kingEdgeFactor = 10 := rfl
+          have hc : kingEdgeCentre = 6 := rfl
+          simp only [hk, hc]
+          congr 2
+          rw [k10] at q15
+          rw [k6] at q14
+          exact ke_arith _ _ _ _ _ _ _ _ _ q13 q14 q15 q16
+
 end GenFns
 end Wee
